@@ -240,6 +240,41 @@ Definition run_nbns (b : bytes) : string :=
   let sobs := show_nbns (node_status_name b) in
   out3 mobs sobs "-".
 
+(* ---- nbenc / nbdec / nna: NetBIOS first-level encoding, whole node-name list ---- *)
+Definition run_nbenc (n : bytes) : string :=
+  let m := tok_of_bytes (encodeNBNSName n) in
+  (* names longer than 16 octets are outside RFC 1001: unconstrained *)
+  out3 m (if Nat.ltb 16 (List.length n) then m else tok_of_bytes (nb_encode (nb_pad16 n))) "-".
+
+Definition show_nbdec (x : nat * bytes) : string := sp (dec_of_nat (fst x)) (tok_of_bytes (snd x)).
+
+Definition run_nbdec (b spare : bytes) : string :=
+  let r := decodeNBNSName (mk_slice b spare) in
+  let mobs := show_res show_nbdec r in
+  let sobs := match nb_decode b with
+              | Some raw => show_nbdec (33%nat, present_spaces raw)
+              | None =>
+                  (* no scope-less RFC 1001 name: a scoped name (longer buffer ending in 0) and characters
+                     outside 'A'..'P' are decoded leniently; anything else must be an error *)
+                  if is_err r then mobs
+                  else if Nat.ltb 34 (List.length b) then mobs
+                  else if match nb_decode_pairs (firstn 32 (skipn 1 b)) with None => true | Some _ => false end then mobs
+                  else REJECT
+              end in
+  out3 mobs sobs "-".
+
+Definition show_names (l : list bytes) : string :=
+  match l with [] => "none" | _ => join "," (map tok_of_bytes l) end.
+
+Definition run_nna (b : bytes) : string :=
+  let r := parseNodeNameArray (of_bytes b) in
+  let mobs := show_res show_names r in
+  let sobs := match node_status_names b with
+              | Some l => show_names l
+              | None => reject_as (is_err r) mobs
+              end in
+  out3 mobs sobs "-".
+
 (* ---- merge / upd ---- *)
 Definition comma : ascii := ","%char.
 
@@ -326,6 +361,21 @@ Definition dispatch (kind : string) (args : list string) : string :=
   else if String.eqb kind "nbns" then
     match args with
     | [b] => match bytes_of_tok b with Some b' => run_nbns b' | None => BADARGS end
+    | _ => BADARGS
+    end
+  else if String.eqb kind "nbenc" then
+    match args with
+    | [b] => match bytes_of_tok b with Some b' => run_nbenc b' | None => BADARGS end
+    | _ => BADARGS
+    end
+  else if String.eqb kind "nbdec" then
+    match args with
+    | [b; sp'] => match bytes_of_tok b, bytes_of_tok sp' with Some b', Some s' => run_nbdec b' s' | _, _ => BADARGS end
+    | _ => BADARGS
+    end
+  else if String.eqb kind "nna" then
+    match args with
+    | [b] => match bytes_of_tok b with Some b' => run_nna b' | None => BADARGS end
     | _ => BADARGS
     end
   else if String.eqb kind "merge" then
